@@ -217,7 +217,7 @@ Proof.
   destruct (same_field b a), (is_wr b || is_wr a), (is_pre a), (is_pre b); auto.
 Qed.
 
-Lemma pair_listed_sym : forall ps f g, pair_listed ps f g = pair_listed ps g f.
+Lemma pair_listed_sym : forall tbl ps a b, pair_listed tbl ps a b = pair_listed tbl ps b a.
 Proof.
   intros. unfold pair_listed. induction ps as [|p r IH]; cbn; auto. rewrite IH. f_equal. apply orb_comm.
 Qed.
@@ -250,6 +250,30 @@ Qed.
 
 Lemma sc_guarded_any : forall tbl l s,
   site_check tbl (GuardedBy l) s = None -> is_pre s = false ->
+  holds_any (eff_locks tbl s) l = true.
+Proof.
+  intros tbl l s H Hp. unfold site_check in H. rewrite Hp in H.
+  destruct (s_kind s).
+  - destruct (covers (eff_locks tbl s) [(l, Sh)]) eqn:C; [|discriminate].
+    cbn in C. rewrite andb_true_r in C. exact C.
+  - destruct (covers (eff_locks tbl s) [(l, Ex)]) eqn:C; [|discriminate].
+    cbn in C. rewrite andb_true_r in C. apply holds_ex_any. exact C.
+  - destruct (covers (eff_locks tbl s) [(l, Sh)]) eqn:C; [|discriminate].
+    cbn in C. rewrite andb_true_r in C. exact C.
+Qed.
+
+Lemma sc_mono_wr : forall tbl l s,
+  site_check tbl (GuardedMono l) s = None -> is_pre s = false -> is_wr s = true ->
+  holds_ex (eff_locks tbl s) l = true.
+Proof.
+  intros tbl l s H Hp Hw. unfold site_check in H. rewrite Hp in H. unfold is_wr in Hw.
+  destruct (s_kind s); try discriminate.
+  destruct (covers (eff_locks tbl s) [(l, Ex)]) eqn:C; [|discriminate].
+  cbn in C. rewrite andb_true_r in C. exact C.
+Qed.
+
+Lemma sc_mono_any : forall tbl l s,
+  site_check tbl (GuardedMono l) s = None -> is_pre s = false ->
   holds_any (eff_locks tbl s) l = true.
 Proof.
   intros tbl l s H Hp. unfold site_check in H. rewrite Hp in H.
@@ -295,7 +319,7 @@ Qed.
    not excused *)
 Lemma table_ok_conflict : forall pol exc tbl a b,
   table_ok pol exc tbl = true -> In a (t_sites tbl) -> In b (t_sites tbl) ->
-  conflict a b = true -> excused pol exc a b = false ->
+  conflict a b = true -> excused pol exc tbl a b = false ->
   common_lock (eff_locks tbl a) (eff_locks tbl b) = true \/
   common_lock (eff_locks tbl b) (eff_locks tbl a) = true.
 Proof.
@@ -309,11 +333,15 @@ Proof.
   destruct (site_accepted _ _ _ _ Hsf Hb Hxb) as [p' [Hl' Hcb]].
   rewrite <- Hk, Hl in Hl'. inversion Hl'; subst p'; clear Hl'.
   rewrite Hl in Hxl.
-  destruct p as [l| | | |n ps].
+  destruct p as [l|l| | | |n ps].
   - (* GuardedBy *)
     destruct Hwr as [Hw|Hw].
     + left. eapply ex_in_any; [eapply sc_guarded_wr|eapply sc_guarded_any]; eauto.
     + right. eapply ex_in_any; [eapply sc_guarded_wr|eapply sc_guarded_any]; eauto.
+  - (* GuardedMono *)
+    destruct Hwr as [Hw|Hw].
+    + left. eapply ex_in_any; [eapply sc_mono_wr|eapply sc_mono_any]; eauto.
+    + right. eapply ex_in_any; [eapply sc_mono_wr|eapply sc_mono_any]; eauto.
   - exfalso. destruct Hwr as [Hw|Hw];
       [rewrite (sc_no_write tbl SyncTyped a) in Hw|rewrite (sc_no_write tbl SyncTyped b) in Hw]; auto; discriminate.
   - exfalso. destruct Hwr as [Hw|Hw];
@@ -382,10 +410,10 @@ Theorem discipline_sound : forall pol exc tbl init sched st,
     i <> j -> nth_error st i = Some ti -> nth_error st j = Some tj ->
     next_acc ti = Some s1 -> next_acc tj = Some s2 ->
     conflict s1 s2 = true ->
-    excused pol exc s1 s2 = true.
+    excused pol exc tbl s1 s2 = true.
 Proof.
   intros pol exc tbl init sched st Hok Hinit Hprogs Hrun Htr i j ti tj s1 s2 Hij Hi Hj N1 N2 Hc.
-  destruct (excused pol exc s1 s2) eqn:Hx; auto. exfalso.
+  destruct (excused pol exc tbl s1 s2) eqn:Hx; auto. exfalso.
   pose proof (run_lock_inv _ _ _ (initial_lock_inv _ Hinit) Hrun) as Inv.
   pose proof (run_progs_in _ _ _ _ Hprogs Hrun) as Hp.
   assert (In1 : In s1 (t_sites tbl)).
@@ -407,11 +435,11 @@ Proof.
   - right; auto.
 Qed.
 
-Lemma excused_cases : forall pol exc a b, excused pol exc a b = true ->
+Lemma excused_cases : forall pol exc tbl a b, excused pol exc tbl a b = true ->
   in_keys exc (site_key a) = true \/
-  exists n ps, In (site_key a, HBVia n ps) pol /\ pair_listed ps (s_func a) (s_func b) = true.
+  exists n ps, In (site_key a, HBVia n ps) pol /\ pair_listed tbl ps a b = true.
 Proof.
-  intros pol exc a b H. unfold excused in H. apply orb_prop in H. destruct H as [H|H]; auto.
+  intros pol exc tbl a b H. unfold excused in H. apply orb_prop in H. destruct H as [H|H]; auto.
   right. destruct (lookup pol (site_key a)) as [p|] eqn:L; [|discriminate].
   destruct p; try discriminate. eauto using lookup_in.
 Qed.
@@ -464,7 +492,7 @@ Theorem discipline_sound_static : forall pol exc tbl init sched st,
     i <> j -> nth_error st i = Some ti -> nth_error st j = Some tj ->
     next_acc ti = Some s1 -> next_acc tj = Some s2 ->
     conflict s1 s2 = true ->
-    excused pol exc s1 s2 = true.
+    excused pol exc tbl s1 s2 = true.
 Proof.
   intros pol exc tbl init sched st Hok Hinit Hprogs Hchk Hrun.
   eapply discipline_sound; eauto.
